@@ -37,6 +37,11 @@ class Contract:
         self.assume_pre: list[str] = kw.pop("assume_pre", [])
         self.ghost_exit: dict[str, str] = kw.pop("ghost_exit", {})  # ghost location -> new value (old() = entry state)
         self.exit_cuts: list[str] = kw.pop("exit_cuts", [])  # ghost cuts proved then assumed at every normal exit
+        # callback=True (with trusted=True): contract of a callable STORED IN THE FIELD named by the key ("Cls.field");
+        # applied when that field's value is called (see CallMixin.call_opaque)
+        self.callback: bool = kw.pop("callback", False)
+        # frame=True: prove at every exit that no field of a pre-existing object outside `modifies` was written
+        self.frame: bool = kw.pop("frame", False)
         self.specialize: dict[str, list] = kw.pop("specialize", {})  # param -> concrete values (case split, completeness proved)  # labelled assumptions (listed in evidence)
         if kw:
             raise TypeError("unknown contract keys %s for %s" % (list(kw), key))
@@ -56,6 +61,8 @@ class Registry:
         self.ghost: dict[str, dict[str, str]] = {}
         self.c_contracts: dict[str, dict] = {}
         self.extern_modules: dict[str, str] = {}
+        self.ufuncs: dict[str, tuple] = {}  # uninterpreted spec functions: name -> ([arg type strings], result type string)
+        self.module_names: set[str] = set()  # names of imported third-party / stdlib modules (attribute access gives ModAttr)
 
     # ---- declaration API used by sidecar files
     def contract(self, key, **kw):
@@ -82,6 +89,11 @@ class Registry:
         """model of a module that is not Python source in the repository (C extension, third party): class and
         function signatures only; every method needs a (trusted) contract."""
         self.extern_modules[rel] = _dedent(src)
+
+    def ufunc(self, name, args, ret):
+        """uninterpreted (total, deterministic, otherwise unconstrained) function usable in clauses: models an
+        external predicate such as 'this signature verifies'. Nothing is assumed about it beyond congruence."""
+        self.ufuncs[name] = (list(args), ret)
 
     def c_contract(self, key, **kw):
         """contract of a C function: key '<file>::<function>', setup(m) builds the symbolic pre-state and returns the
